@@ -123,7 +123,10 @@ class EdgeListVectorizer(BaseEstimator, TransformerMixin):
 
         # Get row and column indices for only the edges who have both labels in our dictionary index
         # Don't bother checking if rows are valid if you just constructed the row_label_dictionary from the data
-        if self.row_label_dictionary is None:
+        # (in a joint space the dictionary is only constructed from the data if neither was given)
+        if self.row_label_dictionary is None and not (
+            self.joint_space and self.column_label_dictionary is not None
+        ):
             valid_rows = np.repeat(True, self.edge_list_.shape[0])
         else:
             valid_rows = np.isin(
@@ -131,7 +134,9 @@ class EdgeListVectorizer(BaseEstimator, TransformerMixin):
             )
 
         # Don't bother checking if rows are valid if you just constructed the col_label_dictionary from the data
-        if self.column_label_dictionary is None:
+        if self.column_label_dictionary is None and not (
+            self.joint_space and self.row_label_dictionary is not None
+        ):
             valid_cols = np.repeat(True, self.edge_list_.shape[0])
         else:
             valid_cols = np.isin(
